@@ -156,6 +156,10 @@ class Run:
             s.add(g)
         return s.check() == z3.unsat
 
+    def _probe(self, node):
+        """evaluate a clause operand for its errors only (no obligations are emitted in spec mode)"""
+        self.ev(node)
+
     def truth(self, v):
         return self.branch(to_bool_term(v))
 
@@ -565,6 +569,17 @@ class Run:
                 if (not is_and) and z3.is_true(ct):
                     return BoolV(True)
                 vals.append(v)
+                if not last:
+                    # the next operand may only make sense under this one (e.g. `is_predict or val(result, ..)`):
+                    # if it cannot be evaluated, the path condition must decide the operands seen so far
+                    try:
+                        self._probe(n.values[i + 1])
+                    except (Unsupported, AttributeError, KeyError, TypeError, z3.Z3Exception):
+                        sofar = [to_bool_term(x) for x in vals]
+                        if is_and and self.entails(z3.Not(z3.And(*sofar))):
+                            return BoolV(False)
+                        if (not is_and) and self.entails(z3.Or(*sofar)):
+                            return BoolV(True)
                 continue
             if last:
                 return v
@@ -599,8 +614,16 @@ class Run:
                 return self.ev(n.body)
             if z3.is_false(ct):
                 return self.ev(n.orelse)
-            a, b = self.ev(n.body), self.ev(n.orelse)
-            return self.eng.lib.ite(self, ct, a, b)
+            try:
+                a, b = self.ev(n.body), self.ev(n.orelse)
+                return self.eng.lib.ite(self, ct, a, b)
+            except (Unsupported, AttributeError, KeyError, TypeError, z3.Z3Exception):
+                # one alternative does not make sense on this path: the path condition must select the other
+                if self.entails(ct):
+                    return self.ev(n.body)
+                if self.entails(z3.Not(ct)):
+                    return self.ev(n.orelse)
+                raise
         if self.truth(c):
             return self.ev(n.body)
         return self.ev(n.orelse)
